@@ -6,7 +6,9 @@ func adjust_axis(crs *SR, denorm bool, point []float64) ([]float64, error) {
 	var v float64
 	var t int
 	for i := 0; i < 3; i++ {
-		if denorm && i == 2 && len(point) == 2 {
+		if i == 2 && len(point) == 2 {
+			// A 2-D point has no third coordinate to adjust, whichever
+			// direction the adjustment goes.
 			continue
 		}
 		if i == 0 {
